@@ -3,6 +3,7 @@ CONSTANTS
   FlagNames = {"a", "b", "c"}
   MaxTok = 2
   LitChars = {}
+  AllUserSets = TRUE
   Export = TRUE
 INVARIANT TypeOK
 INVARIANT AcyclicReachesExpansion
